@@ -276,7 +276,7 @@ def c_fit(ctx, case):
     for name in ("U", "D") + (("V",) if case["jfa"] else ()):
         ga, gb = np.asarray(getattr(a, name), float), np.asarray(getattr(b, name), float)
         ctx.close(ga, gb, "fit_using_array %s == fit(transform) %s" % (name, name), rtol=1e-7,
-                  atol=1e-9 * (np.abs(gb).max() + 1e-300))
+                  atol=1e-9 * (np.abs(gb).max() + 1e-300) + 1e-12 * float(np.sqrt(np.mean(np.asarray(case["ubm"]["variances"], float)))))
         ctx.finite(ga, name)
 
 
